@@ -83,6 +83,10 @@ CHECKS = {
             "Fault enumeration of the join exchange: for each encryption x compression x label configuration and both directions the stream is cut after every byte offset (hard reset and black hole; strided in quick, every offset in thorough) and the digests of both real nodes, Join's result and duration, and the open connection ends are judged (incomplete inbound => unchanged; complete inbound => all or nothing). Plus runtime monitors for mutual listing at the instant Join returns (with the joiner's own filters), merge-delegate veto in both roles, random version matrices against an independent compatibility predicate, duplicate/self entries, and the hearsay rule (reported dead/suspect => listed, suspected, removed only by the receiver's own timer at >= the minimum timeout, also when the report is repeated while the suspicion is pending).",
             "Cut completeness is judged by the bytes really written on that connection (compressed state size varies with table order). Trusts the simulated stream (ordered, cut or reset at a byte offset), the wire codec.",
             "cut-at-every-byte enumeration with digest-equality oracle + exchange/hearsay monitors", "DESIGN.md §3 C09"),
+    "C20": ("E2-rig stage scripts (virtual time) + E4 real sockets under -race", "exploration",
+            "Runtime monitor: (A) every public call at every lifecycle stage (created, joined, leaving, left, left-and-aged, shut down) alone and in PRNG combinations incl. overlapping Shutdown calls on a transport whose shutdown takes time, each call under recover with a virtual-time watchdog; panics (other than the documented Leave-after-Shutdown), blocked calls, overrun timeouts, a datagram accepted by the transport after a Shutdown call returned, and goroutines surviving Shutdown are violations; (B) loopback NetTransport clusters with millisecond intervals hammered from 6 goroutines while two Leave and two Shutdown calls race, under the Go race detector (every deduplicated report is a violation), with post-shutdown marked messages and port re-binding checks. A process-level stall detector reports mutex deadlocks.",
+            "Overlapping Leave calls cannot run in a synctest bubble (the second parks on a mutex whose holder waits on the fake clock) and are exercised only in part B. Real-time watchdogs are inconclusive, never violations. Race detection covers only interleavings that occurred.",
+            "stage x call scripts with panic/blocked-call/leak/post-shutdown-traffic monitors + race detector on real sockets", "DESIGN.md §3 C20"),
 }
 
 NOT_YET = "check not built yet in this round (design in DESIGN.md §3); not claimed until its monitor runs clean on the unchanged tree"
@@ -118,9 +122,10 @@ def main():
             "add_only": True,
         },
         "engines": [
+            {"name": "E4-real-sockets-race", "path": "harness/c20_test.go", "serves_properties": ["C17", "C20"], "kind_free_text": "real goroutines / real NetTransport on loopback under the Go race detector; no timing oracle"},
             {"name": "E3-hostile-input", "path": "harness/hostile.go", "serves_properties": ["C13", "C14"], "kind_free_text": "victim node + genuine corpus from the oracle-side codec + deterministic mutators; each input journalled before injection, batches in child processes"},
             {"name": "E1-simnet", "path": "harness/simnet.go", "serves_properties": ["C02", "C03", "C04", "C05", "C07", "C08", "C09", "C12", "C15", "C17"], "kind_free_text": "real Memberlist instances on an in-memory transport inside a testing/synctest bubble (virtual time), with wire tap, fault scripts and fake peers"},
-            {"name": "E2-model-lockstep", "path": "harness/", "serves_properties": ["C01", "C02", "C06", "C08", "C10", "C11", "C16", "C17", "C18", "C19"], "kind_free_text": "PRNG operation sequences against one object with an executable reference model evaluated in lock-step"},
+            {"name": "E2-model-lockstep", "path": "harness/", "serves_properties": ["C01", "C02", "C06", "C08", "C10", "C11", "C16", "C17", "C18", "C19", "C20"], "kind_free_text": "PRNG operation sequences against one object with an executable reference model evaluated in lock-step"},
         ],
         "checks": checks,
         "not_applicable": [{"property_id": p, "reason": NOT_YET} for p in ALL if p not in CHECKS],
